@@ -394,6 +394,11 @@ class Repo:
             return False
         return fi.name.startswith('_') or fi.key not in FUNCTIONS
 
+    def is_helper_class(self, c: 'ClassInfo') -> bool:
+        """a class that did not exist when the rule instances were confirmed (oracles/inventory.py)"""
+        from .oracles.inventory import CLASSES
+        return c.key not in CLASSES and c.module.name in self.modules
+
     def helper_closure(self, fi: FuncInfo) -> List[FuncInfo]:
         """``fi`` and the helpers (see is_helper) it reaches through ``self.m()`` / ``cls.m()`` calls, calls of module
         functions, and functions named in class-level tables of its class -- the code a rule about ``fi`` has to look at
